@@ -180,6 +180,28 @@ theorem copy_geometry_implicit_lineto (rel : Bool) (a b c d : List Char) :
 def path_geometry_full : Prop :=
   ∀ d : List Char, validPath d = true → holds d (shorten d) = true
 
+/-- number printers that keep the exact value and the `minify.Number` shape (C08.1 + C08.5) -/
+def NumExact (P : NumPr) : Prop :=
+  (∀ s, goodNum (P.cur s) = true ∧ numVal (P.cur s) = numVal s) ∧
+  (∀ v, goodNum (P.alt v) = true ∧ numVal (P.alt v) = v)
+
+/-- **target, not yet proved** (kept visible): the guarded main statement.  Guards = the triggers of the open
+    known findings K-C05-2…5/10 (`noHazard`: no curve command directly after a closepath, a removed
+    zero-length segment or a degenerate curve of its family; no trailing-dot number).  Proved so far:
+    the output side (`shorten_output_parses`: the output parses to exactly the chosen groups) and every
+    single rewrite (`copy_geometry_*`); open: the induction threading cursor / subpath start / control
+    points through `groupStep`, scanner agreement with `parse`, and the value of the `.0`/`e2` spellings. -/
+def path_geometry_partial_goal : Prop :=
+  ∀ P : NumPr, NumExact P → ∀ d : List Char, validPath d = true → trailDot d = false →
+    noHazard ((parse d).getD []) = true → holds d (shortenWith P d) = true
+
+/-- the guards are satisfiable by a non-trivial path using every kind of rewrite -/
+example : validPath "M0 0L5 0 5 0H6C6 5 10 5 10 0S15-5 15 0Q20 5 25 0T35 0A5 5 0 0140 0z".toList = true ∧
+    trailDot "M0 0L5 0 5 0H6C6 5 10 5 10 0S15-5 15 0Q20 5 25 0T35 0A5 5 0 0140 0z".toList = false ∧
+    noHazard ((parse "M0 0L5 0 5 0H6C6 5 10 5 10 0S15-5 15 0Q20 5 25 0T35 0A5 5 0 0140 0z".toList).getD []) = true ∧
+    holds "M0 0L5 0 5 0H6C6 5 10 5 10 0S15-5 15 0Q20 5 25 0T35 0A5 5 0 0140 0z".toList
+      (shorten "M0 0L5 0 5 0H6C6 5 10 5 10 0S15-5 15 0Q20 5 25 0T35 0A5 5 0 0140 0z".toList) = true := by decide +kernel
+
 /-- the full statement is false for the code as it is: `M0 0Q0 0 5 5T10 0` ↦ `M0 0 5 5l5-5`
     (known finding K-C05-4; the T, a real curve with control point (10,10), becomes a line) -/
 theorem path_geometry_counterexample : ¬ path_geometry_full := fun h =>
